@@ -1,0 +1,11 @@
+//go:build verif
+
+// Contracts for package sighash, read by /verif's gobtvc. Comment-only; compiled only with -tags verif.
+
+package sighash
+
+//@ func sighash.Flag.HasWithMask
+//@   pure
+//@   ensures[C02.has_with_mask] (= result (= (mod f 32) shf))
+//@ func sighash.Flag.Has
+//@   pure
